@@ -16,6 +16,16 @@ From Props Require Import CoupleLib EncProps.
 Import ListNotations.
 Local Open Scope Z_scope.
 
+(* FULL STATEMENT of C07 (DESIGN.md): for every op list accepted by Model.Emitter with no control transfer
+   that is TAKEN, no PLP / RTI, truthful Assume* after the first emission, on either CPU in native mode: the
+   sequence of PBR:PC values at which Step fetches = the instruction starts the emitter recorded (block moves
+   repeating their own start), final (M, X) = (not IsM16bit, not IsX16bit); and an immediate method is refused
+   iff its operand size differs from the tracked width.
+   PROVED here (C07_couple, instantiated per run as C07_partial_<model>): the same with "no control transfer
+   that is taken" strengthened to "no branch / jump / call / return / BRK / COP / XCE / STP / WAI / MVN / MVP
+   instruction at all" -- what is missing is the case of a conditional branch that happens not to be taken
+   (its contract depends on the flag values of the run) and the block moves; the refusal half is complete. *)
+
 (* ------------------------------------------------------------------ straight-line opcodes *)
 (* excluded: branches (taken or not is a property of the run, not of the program text), jumps, calls,
    returns, software interrupts, PLP / RTI (M, X restored from the stack), XCE (may enter emulation
